@@ -164,6 +164,25 @@ def h_history_session(I):
     return [len(w.frames)]
 
 
+def h_send_large(I):
+    """Large frames: every byte string handed to the transport is one whole well-formed frame
+    (sizes are structural choices; the content is plain ASCII)."""
+    sizes = (50, 1000, 4000, 4090, 4200, 8000, 20000, 70000)
+    n = sizes[I.choice("value_length", len(sizes))]
+    kind = I.choice("kind", 2)
+
+    def body():
+        c = mkconn(ConnectionState.ACTIVE, ConnectionRole.INITIATOR, 1, 7)
+        w = c._socket_writer
+        m = FIXMessage("B", {148: "headline", 58: "x" * n}) if kind == 0 else FIXMessage("D", {11: "c", 58: "y" * n})
+        run(c.send_msg(m))
+        return list(w.frames)
+    frames = I.untraced(body)
+    I.check(len(frames) == 1, f"a {n}-character value was handed to the transport in {len(frames)} pieces")
+    _frame_ok(I, frames[0], "large frame")
+    return [n, len(frames)]
+
+
 def cells(tier):
     quick = tier == "quick"
     out = []
@@ -192,6 +211,8 @@ def cells(tier):
                             dict(state=sname, inbound=kind, counters="symbolic, 2 digits"), goals=["stepped"], regions=reg, budget_s=1800))
     out.append(Cell("history/session", h_history_session, dict(logon="MsgSeqNum expected / one above; HeartBtInt symbolic", then="TestRequest, Logout with symbolic text"),
                     goals=["framed-session"], budget_s=1800))
+    out.append(Cell("send_msg/large", h_send_large, dict(value_length="one of 50 / 1000 / 4000 / 4090 / 4200 / 8000 / 20000 / 70000 ASCII characters",
+                                                         oracle="exactly one write per message, and it is a whole well-formed frame"), goals=["framed"]))
     out.append(Cell("send_msg", lambda I: h_send(I, 3 if quick else 4),
                     dict(values=vb.format(3 if quick else 4), counter="< 10^6",
                          kinds=["D", "0", "5", "4"], state="ACTIVE"), goals=["framed"], regions=reg))
